@@ -1,20 +1,27 @@
 """C16  Computations on different threads never interfere.
 
-PROVED (Lean, AsynqModel.Threads): if every operation of a thread reads and writes only that thread's slot of the
-global state (`stepOf`), then under EVERY schedule each thread ends in the state, and makes exactly the observations,
-of running its operations alone (generic step function, and the concrete `localStep` written after scheduler.py /
-batching.py / profiler.py / tools.py(deduplicate) / asynq_to_async.py); a thread-keyed process-wide table is a family
-of per-thread tables.
+PROVED (Lean, AsynqModel.Threads): the model is ONE global state (thread-indexed carriers, the one process-wide
+deduplicate dict whose keys carry a thread component, objects shared by design) with ONE global step `gStep kg t op`;
+how a thread indexes the carriers and keys the dict is the parameter `kg`.  Theorems: the step of thread t commutes
+with the abstraction to t's own view (its carriers + its slice of the dict) and, if `kg` separates the threads, leaves
+every other thread's view unchanged; hence under EVERY schedule - for fixed operation lists and for adaptive
+computations whose next operation is any function of what the thread has observed - each thread that does not itself
+use an object shared by design ends with the view and the records of running alone.  With the thread missing from the
+deduplicate key, with thread-local holders turned into module state, or for a thread that reads a shared scoped value /
+alru cache, the same statement is refuted (counterexample theorems).
 
-NOT PROVABLE, SHOWN BY THE RUNS ONLY: that the Python functions have that shape, and behaviour under real OS
-interleavings.  Three kinds of cases tie the locality claim to the current tree:
-  inv   an `ast` inventory of every module-/class-level mutable object, threading.local, ContextVar, rebound global and
-        mutable default of asynq/*.py, compared (in Lean) with the model's list of per-thread components and its list of
-        process-wide-by-design objects;
-  hist  K threads execute generated histories of the operations on the per-thread state IN LOCK-STEP under a generated
-        schedule (so thread B acts while thread A is inside a task, in the middle of a flush, in asyncio mode, holds an
-        in-flight deduplicated task ...): every observation is compared with the model run under the same schedule
-        (CORR) and with the same thread running alone (SPEC).  The fixed write-in-A/observe-in-B probes are of this kind;
+NOT PROVABLE, SHOWN BY THE RUNS ONLY: that the Python functions behave like `gStep Keying.real`, and behaviour under
+real OS interleavings.  Three kinds of cases tie the model to the current tree:
+  inv   an `ast` inventory of asynq/*.py (module-/class-level mutable objects, threading.local, ContextVar, rebound
+        globals incl. `globals()[..]`, run-time writes to class attributes, mutable defaults, closure caches, function
+        attributes, attributes of held objects), compared (in Lean) with the model's list of thread-indexed components
+        and its list of process-wide / shared-by-design objects; plus the list of carriers the fixed probes exercise
+        (a component without a probe is reported);
+  hist  K threads execute generated histories of operations IN LOCK-STEP under a generated schedule (so thread B acts
+        while thread A is inside a task, in the middle of a flush, in asyncio mode, holds an in-flight deduplicated
+        task, is inside `with V.override(..)` of a scoped value both use ...): every observation is compared with the
+        model run under the same schedule (CORR) and - up to the thread's first use of a shared-by-design object - with
+        the same thread running alone (SPEC).  The fixed write-in-A/observe-in-B probes are of this kind;
   prog  K (2..16) free-running threads, sys.setswitchinterval(1e-6), repeated runs, each interpreting a generated asynq
         program (DebugBatchItem / sync(), @deduplicate functions shared by all threads with equal keys, AsyncContext,
         nested synchronous calls, COLLECT_PERF_STATS, get_active_task()): the per-thread trace (results, batch
@@ -29,41 +36,66 @@ PID = "C16"
 LEVEL = "proof"
 LEAN_MODULES = ["AsynqModel.Theorems.C16"]
 THEOREMS = [
-    "AsynqModel.Threads.C16_noninterference_generic",
-    "AsynqModel.Threads.C16_frame_generic",
-    "AsynqModel.Threads.C16_never_observes_others_generic",
+    # the sharing structure of the ONE global step
+    "AsynqModel.Threads.C16_gstep_simulates_local",
+    "AsynqModel.Threads.C16_gstep_frames_others",
+    "AsynqModel.Threads.C16_never_observes_others",
+    # non-interference derived from it, for every schedule
     "AsynqModel.Threads.C16_noninterference",
+    "AsynqModel.Threads.C16_noninterference_prefix",
     "AsynqModel.Threads.C16_schedule_independent",
+    "AsynqModel.Threads.C16_adaptive_noninterference",
+    "AsynqModel.Threads.C16_adaptive_schedule_independent",
+    # necessity: the same step with a keying that does not separate the threads / with shared-by-design objects
+    "AsynqModel.Threads.C16_no_thread_in_key_counterexample",
+    "AsynqModel.Threads.C16_module_state_counterexample",
+    "AsynqModel.Threads.C16_shared_object_counterexample",
+    # the observer
     "AsynqModel.Threads.C16_spec_holds",
-    "AsynqModel.Threads.C16_dedup_table_slices",
+    # the same for the library's keying, in the functions the driver evaluates (inter / aloneOn / alone / spec)
+    "AsynqModel.Threads.C16_noninterference_library",
+    "AsynqModel.Threads.C16_spec_holds_library",
 ]
 BUILDS = {"quick": ["py"], "thorough": ["py", "cy"]}
 CASE_TIMEOUT = 100
-RULE = ("inv: one AST inventory of asynq/*.py per run. hist: generated lock-step histories (2-6 threads, 6-40 operations "
-        "per thread over scheduler/debug-batch/profiler/deduplicate/asyncio-mode, nested task bodies up to depth 3, flushes "
-        "paused in the middle) under a generated schedule (fine / bursty / round-robin; 30% with identical histories on all "
-        "threads), plus one fixed write-in-A/observe-in-B probe per component and COLLECT_PERF_STATS setting (10); quick 400 / "
-        "thorough 6000. prog: 2-16 free-running threads started together (switch interval 1e-6; 3 repetitions quick / 5 "
-        "thorough) interpreting generated asynq programs that share deduplicated functions, keys and batch names, 30% with "
-        "threads serving asynq functions through asyncio.run(fn.asyncio()); quick 160 + one per thread count 2..16 / thorough "
-        "700 + 15. non-trivial = a hist case with >= 2 threads, >= 8 steps and at least one thread inside a task body while "
-        "others act, or a prog case with >= 2 threads, a flush of >= 2 items and >= 1 deduplicate hit; distinct by case hash")
+RULE = ("inv: one AST inventory of asynq/*.py per run + the list of probed carriers. hist: generated lock-step histories "
+        "(2-6 threads, 6-40 operations per thread over scheduler/debug-batch/profiler/deduplicate/asyncio-mode, nested task "
+        "bodies up to depth 3, flushes paused in the middle; 35% of them with some threads also using the scoped value and "
+        "the alru_cache function that all threads of the run share) under a generated schedule (fine / bursty / round-robin; "
+        "30% with identical histories on all threads), plus a FIXED list of write-in-A/observe-in-B probes: one per carrier "
+        "of the model's component list and one for the shared-by-design objects, each with both COLLECT_PERF_STATS settings "
+        "(12); quick 400 / thorough 6000. prog: 2-16 free-running threads started together (switch interval 1e-6; 3 "
+        "repetitions quick / 5 thorough) interpreting generated asynq programs that share deduplicated functions, keys and "
+        "batch names, 30% with threads serving asynq functions through asyncio.run(fn.asyncio()); quick 160 + one per thread "
+        "count 2..16 / thorough 700 + 15. non-trivial = a hist case with >= 2 threads, >= 8 steps and at least one thread "
+        "inside a task body while others act, or a prog case with >= 2 threads, a flush of >= 2 items and >= 1 deduplicate "
+        "hit; distinct by case hash")
 TRUSTED = [
-    "hand-written Lean model AsynqModel.Lib.Threads; that each Python operation only touches the calling thread's "
-    "component (the shape `stepOf`) is NOT proved - it is tied by this check's inventory, lock-step histories and runs",
-    "Python harness checks/c16.py: lock-step turn taking, identity->token maps, on_before_batch_flush / on_computed hooks, "
-    "read-only len(TaskScheduler._tasks/_batches), the op records it emits for scheduler-internal steps "
-    "(push/pop/schedBatch) at the points where the code performs them",
+    "hand-written Lean model AsynqModel.Lib.Threads (one global state, `gStep`); that each Python operation behaves like "
+    "`gStep Keying.real` is NOT proved - it is tied by this check's inventory, lock-step histories and runs",
+    "Python harness checks/c16.py: lock-step turn taking, identity->token maps (999999 = an object the thread did not "
+    "create), on_before_batch_flush / on_computed hooks, read-only len(TaskScheduler._tasks/_batches), the op records it "
+    "emits for scheduler-internal steps (push/pop/schedBatch) at the points where the code performs them",
     "the OS / CPython thread scheduler: interleavings are sampled (tiny switch interval, repeated runs), not enumerated",
-    "threading.local, contextvars, threading.current_thread of CPython",
+    "threading.local, contextvars, threading.current_thread of CPython (`Keying.real`: one slot / one key per thread)",
 ]
 ASSUMPTIONS = [
     "process-wide-by-design state is excluded: asynq._debug.options (COLLECT_PERF_STATS is a parameter of the model), "
-    "debug.py hook flags, constants; DeduplicateDecorator.tasks is process-wide but keyed with the thread",
+    "debug.py hook flags, constants; DeduplicateDecorator.tasks is process-wide but keyed with the thread (modelled as the "
+    "one shared dict, separation proved)",
+    "objects that the PROGRAM shares between threads are outside the statement (hypothesis `isShared = false` on the "
+    "thread's own operations in every non-interference theorem; Threads.knownShared lists them with reasons): an "
+    "AsyncScopedValue / async_override target used by several threads (thread B reads 5 while thread A is inside "
+    "`with V.override(5)`: scoped_value.py:62-68 writes the one object), the caches of alru_cache / acached_per_instance / "
+    "alazy_constant (one per decorated function, like functools.lru_cache).  Modelled (Shared.sv, Shared.lru), generated "
+    "and compared with the model (CORR); the model refutes non-interference for them (C16_shared_object_counterexample); "
+    "SPEC compares a thread with its run alone only up to its first operation on such an object",
     "threads do not hand asynq objects (tasks, batch items, contexts) to each other",
     "programs are free of flush-priority ties (a tie is broken by set iteration order, i.e. by object addresses, "
     "also single-threaded); tie-prone generated programs are collapsed to one batch name",
     "asyncio event loops (one ContextVar context per asyncio task) are C15's subject; here a thread is one context",
+    "the adaptive theorems treat a computation as a deterministic function of the thread's own records; the harness "
+    "programs are of that kind (no clocks, no randomness, no reads of other threads' objects)",
 ]
 
 FOREIGN = 999999
@@ -76,9 +108,15 @@ MUTATORS = {"append", "extend", "insert", "pop", "remove", "clear", "add", "disc
 # generation
 # ---------------------------------------------------------------------------------------------------
 
-def _gen_hops(rng, n):
+SIMPLE_IN_BLOCK = ["getSched", "snap", "getActive", "mkItem", "profIncr", "profFlush", "amGet", "svGet", "svSet",
+                   "lruCall", "dedupCall"]
+
+
+def _gen_hops(rng, n, shared=False):
     """hops of one thread for a lock-step history; keeps the little bookkeeping needed for validity: nesting depth,
-    asyncio-mode flag (a task created in asyncio mode is a coroutine: no body), batch sizes (no priority ties)"""
+    asyncio-mode flag (a task created in asyncio mode is a coroutine: no body), batch sizes (no priority ties).
+    `shared`: the thread also uses the objects that the threads of the run share by design (one AsyncScopedValue, one
+    alru_cache function); a `with V.override(..)` block contains only hops that neither yield nor switch asyncio mode"""
     hops = []
     depth = 0
     am = []            # saved flags
@@ -96,7 +134,19 @@ def _gen_hops(rng, n):
         else:
             choices.append("taskLeave")
             weights.append(5)
+        if shared:
+            choices += ["svGet", "svSet", "svBlock", "lruCall"]
+            weights += [2.5, 1.2, 2, 2.5]
         c = rng.choices(choices, weights)[0]
+        if c in ("svGet", "svSet", "lruCall"):
+            hops.append(_simple_hop(rng, c, sizes))
+            continue
+        if c == "svBlock":
+            hops.append(["svEnter", rng.randint(1, 9)])
+            for _ in range(rng.randint(0, 3)):
+                hops.append(_simple_hop(rng, rng.choice(SIMPLE_IN_BLOCK), sizes))
+            hops.append(["svExit"])
+            continue
         if c in ("getSched", "snap", "getActive", "profIncr", "profFlush", "profReset", "amGet", "resetSched"):
             hops.append([c])
             if c == "resetSched":
@@ -146,6 +196,20 @@ def _gen_hops(rng, n):
     return hops
 
 
+def _simple_hop(rng, c, sizes):
+    if c == "mkItem":
+        nm = rng.randrange(NAMES)
+        sizes[nm] = sizes.get(nm, 0) + 1
+        return ["mkItem", nm]
+    if c == "svSet":
+        return ["svSet", rng.randint(1, 9)]
+    if c == "lruCall":
+        return ["lruCall", rng.randrange(3)]
+    if c == "dedupCall":
+        return ["dedupCall", rng.randrange(2), rng.randrange(3)]
+    return [c]
+
+
 def _order(rng, threads, style):
     """a schedule: the thread index of every step"""
     left = [len(h) for h in threads]
@@ -170,40 +234,53 @@ def _order(rng, threads, style):
 def gen_hist(rng, k=None, n=None):
     k = k or rng.choice([2, 2, 3, 3, 4, 6])
     n = n or rng.choice([6, 10, 16, 24, 40])
-    threads = [_gen_hops(rng, n) for _ in range(k)]
+    # 35% of the histories also use the objects shared by design (by some of their threads)
+    sh = rng.random() < 0.35
+    users = [sh and rng.random() < 0.6 for _ in range(k)]
+    threads = [_gen_hops(rng, n, shared=users[t]) for t in range(k)]
     if rng.random() < 0.3:   # identical histories on all threads: every name and key collides
         threads = [json.loads(json.dumps(threads[0])) for _ in range(k)]
     return {"kind": "hist", "perf": rng.randrange(2), "threads": threads,
             "order": _order(rng, threads, rng.choice(["fine", "fine", "burst", "rr"]))}
 
 
-def _probe(writer, observer, perf):
+def _probe(writer, observer, perf, comp):
     threads = [writer, [observer[i % len(observer)] for i in range(len(writer))]]
-    return {"kind": "hist", "perf": perf, "threads": threads, "order": _order(None, threads, "rr"), "probe": 1}
+    return {"kind": "hist", "perf": perf, "threads": threads, "order": _order(None, threads, "rr"), "probe": 1,
+            "comp": comp}
 
 
 def probes():
-    """write-in-thread-A / observe-in-thread-B, one per per-thread component"""
+    """write-in-thread-A / observe-in-thread-B: a FIXED list, one probe per carrier of the model's component list
+    (`comp` = (module, name) of the carrier; the `inv` case hands the list of probed carriers to the Lean side, which
+    reports a component without a probe) and one for the objects shared by design (comp None: correspondence only)"""
     res = []
     for perf in (0, 1):
         # scheduler: A is inside a task, inside a nested task, in the middle of a flush with another batch scheduled
         res.append(_probe([["taskEnter"], ["snap"], ["taskEnter"], ["getActive"], ["useItems", [[1, 1], [2, 2]], 1],
                            ["flushPause"], ["flushPause"], ["snap"], ["taskLeave"], ["taskLeave"], ["resetSched"], ["getSched"]],
-                          [["snap"], ["getActive"], ["getSched"]], perf))
+                          [["snap"], ["getActive"], ["getSched"]], perf, ["scheduler", "_state"]))
         # debug-batch table
         res.append(_probe([["mkItem", 1], ["mkItem", 1], ["mkItem", 10], ["useItems", [[1, 1]], 0], ["mkItem", 1]],
-                          [["mkItem", 1], ["mkItem", 10], ["useItems", [[1, 2]], 0]], perf))
+                          [["mkItem", 1], ["mkItem", 10], ["useItems", [[1, 2]], 0]], perf, ["batching", "_debug_batch_state"]))
         # profiler buffer and counter
         res.append(_probe([["profAppend", 5], ["profIncr"], ["taskEnter"], ["taskLeave"], ["profIncr"], ["profFlush"]],
-                          [["profIncr"], ["profFlush"], ["profAppend", 6], ["profReset"]], perf))
+                          [["profIncr"], ["profFlush"], ["profAppend", 6], ["profReset"]], perf, ["profiler", "_state"]))
         # deduplication scope: same function, same key, task in flight on A
         res.append(_probe([["dedupCall", 0, 1], ["dedupCall", 0, 1], ["taskEnter", 0, 1], ["dedupCall", 0, 1],
                            ["taskLeave"], ["dedupCall", 0, 1], ["dirty", 0, 1], ["dedupCall", 0, 1]],
-                          [["dedupCall", 0, 1], ["dirty", 0, 1], ["dedupCall", 0, 1], ["taskEnter", 0, 1], ["taskLeave"]], perf))
+                          [["dedupCall", 0, 1], ["dirty", 0, 1], ["dedupCall", 0, 1], ["taskEnter", 0, 1], ["taskLeave"]], perf,
+                          ["tools", "DeduplicateDecorator.tasks"]))
         # asyncio mode
         res.append(_probe([["amEnter"], ["amGet"], ["dedupCall", 1, 2], ["taskEnter"], ["amEnter"], ["amExit"], ["amGet"],
                            ["amExit"], ["amGet"]],
-                          [["amGet"], ["dedupCall", 1, 2], ["taskEnter"], ["taskLeave"]], perf))
+                          [["amGet"], ["dedupCall", 1, 2], ["taskEnter"], ["taskLeave"]], perf, ["asynq_to_async", "_asyncio_mode"]))
+        # objects shared by design (audit A5): B reads the scoped value while A is inside `with V.override(5)`, B calls
+        # the cached function after A filled the cache; both threads keep using their own state meanwhile
+        res.append(_probe([["svGet"], ["svEnter", 5], ["getActive"], ["svGet"], ["svExit"], ["svSet", 7], ["lruCall", 1],
+                           ["lruCall", 1], ["taskEnter"], ["svEnter", 3], ["mkItem", 1], ["svExit"], ["lruCall", 2], ["taskLeave"],
+                           ["profFlush"]],
+                          [["mkItem", 1], ["svGet"], ["lruCall", 1], ["snap"], ["profFlush"]], perf, None))
     return res
 
 
@@ -263,6 +340,11 @@ def gen_prog(rng, k=None, reps=3):
     return {"kind": "prog", "perf": rng.randrange(2), "threads": threads, "dd": dd, "reps": reps}
 
 
+def _atom(x):
+    """a string as one S-expression atom"""
+    return "".join(ch if (ch.isalnum() or ch in "._:*-[]") else "_" for ch in str(x)) or "_"
+
+
 def corpus():
     import glob
     import os
@@ -317,7 +399,7 @@ def shrink(case):
     # hist: drop one hop of one thread (keeping enter/leave and pause structure: drop only simple hops or whole pairs)
     for i, hops in enumerate(th):
         for j, h in enumerate(hops):
-            if h[0] in ("taskEnter", "taskLeave", "flushPause"):
+            if h[0] in ("taskEnter", "taskLeave", "flushPause", "svEnter", "svExit"):
                 continue
             n = 1
             if h[0] == "useItems":
@@ -384,9 +466,131 @@ def signature(case, v):
 # the AST inventory (locality probe, static half)
 # ---------------------------------------------------------------------------------------------------
 
+def _mutable_kind(v, local_classes=()):
+    """kind of the object an expression creates: dict / list / set / tlocal / contextvar / call:<callee> / None"""
+    import ast
+    if isinstance(v, (ast.Dict, ast.DictComp)):
+        return "dict"
+    if isinstance(v, (ast.List, ast.ListComp)):
+        return "list"
+    if isinstance(v, (ast.Set, ast.SetComp)):
+        return "set"
+    if isinstance(v, ast.Call):
+        callee = ast.unparse(v.func)
+        last = callee.split(".")[-1]
+        if last in local_classes or last == "local":
+            return "tlocal"
+        if last == "ContextVar":
+            return "contextvar"
+        return "call:" + "".join(ch for ch in callee if ch.isalnum() or ch in "._")
+    return None
+
+
+def _flat_targets(t):
+    import ast
+    if isinstance(t, (ast.Tuple, ast.List)):
+        for e in t.elts:
+            for x in _flat_targets(e):
+                yield x
+    elif isinstance(t, ast.Starred):
+        for x in _flat_targets(t.value):
+            yield x
+    else:
+        yield t
+
+
+def _pairs(targets, value):
+    """(target node, value node or None) of an assignment, tuple targets taken apart (`a, b = {}, []`)"""
+    import ast
+    for t in targets:
+        if isinstance(t, (ast.Tuple, ast.List)):
+            if isinstance(value, (ast.Tuple, ast.List)) and len(value.elts) == len(t.elts) and \
+                    not any(isinstance(e, ast.Starred) for e in t.elts):
+                for te, ve in zip(t.elts, value.elts):
+                    for x in _pairs([te], ve):
+                        yield x
+            else:       # unpacking of something opaque: every name gets the kind of the whole right-hand side
+                for te in _flat_targets(t):
+                    yield te, value
+        else:
+            yield t, value
+
+
+def _own_nodes(fnode):
+    """the nodes of a function body that belong to that function itself (not to nested functions / classes)"""
+    import ast
+    stack = list(ast.iter_child_nodes(fnode))
+    while stack:
+        n = stack.pop()
+        yield n
+        if not isinstance(n, (ast.FunctionDef, ast.AsyncFunctionDef, ast.Lambda, ast.ClassDef)):
+            stack.extend(ast.iter_child_nodes(n))
+
+
+def _locals_of(fnode):
+    import ast
+    names = set()
+    a = fnode.args
+    for x in a.posonlyargs + a.args + a.kwonlyargs + [a.vararg, a.kwarg]:
+        if x is not None:
+            names.add(x.arg)
+    glob = set()
+    for n in _own_nodes(fnode):
+        if isinstance(n, (ast.Global, ast.Nonlocal)):
+            glob.update(n.names)
+        elif isinstance(n, ast.Name) and isinstance(n.ctx, (ast.Store, ast.Del)):
+            names.add(n.id)
+        elif isinstance(n, (ast.FunctionDef, ast.AsyncFunctionDef, ast.ClassDef)):
+            names.add(n.name)
+        elif isinstance(n, (ast.Import, ast.ImportFrom)):
+            for al in n.names:
+                names.add((al.asname or al.name).split(".")[0])
+        elif isinstance(n, ast.ExceptHandler) and n.name:
+            names.add(n.name)
+    return names - glob
+
+
+def _written(node):
+    """the expressions whose object / binding a statement or call changes: [(expression, how)]"""
+    import ast
+    res = []
+    if isinstance(node, (ast.Assign, ast.AugAssign, ast.AnnAssign, ast.Delete, ast.For, ast.AsyncFor)):
+        if isinstance(node, ast.Assign):
+            tg = node.targets
+        elif isinstance(node, ast.Delete):
+            tg = node.targets
+        else:
+            tg = [node.target]
+        for t in tg:
+            for x in _flat_targets(t):
+                if isinstance(x, ast.Subscript):
+                    res.append((x.value, "item"))
+                elif isinstance(x, ast.Attribute):
+                    res.append((x, "attr"))
+                elif isinstance(x, ast.Name) and isinstance(node, ast.AugAssign):
+                    res.append((x, "item"))        # `x += ..` mutates a list / set in place
+    elif isinstance(node, ast.Call):
+        if isinstance(node.func, ast.Attribute) and node.func.attr in MUTATORS:
+            res.append((node.func.value, "item"))
+        elif isinstance(node.func, ast.Name) and node.func.id in ("setattr", "delattr") and node.args:
+            res.append((ast.Attribute(value=node.args[0], attr="*", ctx=ast.Store()), "attr"))
+    return res
+
+
 def inventory(pkg_dir):
-    """every module-/class-level mutable object, threading.local instance, ContextVar, rebound global and mutable
-    default argument of the package's .py files: [(module, qualified name, kind)]"""
+    """the static half of the locality probe: every place of the package's .py files where state that outlives one
+    call can live, as [(module, qualified name, kind)]:
+      dict / list / set / const   module- or class-level container (const = no code of the module mutates it)
+      tlocal / contextvar         a threading.local (sub)class instance / a ContextVar
+      call:<callee>               another module- or class-level object created by a call
+      global                      a module global rebound inside a function (`global x`) or through `globals()[..]`
+      default                     a mutable default argument that its function mutates (const otherwise)
+      classattr                   a class attribute written at run time (`Cls.x = ..`, `Cls.x += 1`, `cls.x`, `type(self).x`)
+      attrwrite                   an attribute of a module-level object written inside a function (`options.X = ..`)
+      closure:<kind>              a container / object created in a function and mutated by a function nested in it
+      fnattr                      state kept in attributes of a function object, written by nested functions
+      held                        an attribute of an object that an instance merely holds (`self._target._value = ..`,
+                                  `setattr(self._target, ..)`): the object is shared with whoever else holds it"""
     import ast
     import os
     out = []
@@ -397,43 +601,29 @@ def inventory(pkg_dir):
         with open(os.path.join(pkg_dir, fn)) as f:
             tree = ast.parse(f.read())
         local_classes = set()
+        classes = set()
         for node in ast.walk(tree):
             if isinstance(node, ast.ClassDef):
+                classes.add(node.name)
                 if any(ast.unparse(b).split(".")[-1] == "local" for b in node.bases):
                     local_classes.add(node.name)
         mutated = set()
         for node in ast.walk(tree):
-            tgt = None
-            if isinstance(node, ast.Subscript) and isinstance(node.ctx, (ast.Store, ast.Del)):
-                tgt = node.value
-            elif isinstance(node, ast.Call) and isinstance(node.func, ast.Attribute) and node.func.attr in MUTATORS:
-                tgt = node.func.value
-            elif isinstance(node, ast.AugAssign):
-                tgt = node.target
-            if isinstance(tgt, ast.Name):
-                mutated.add(tgt.id)
-            elif isinstance(tgt, ast.Attribute):
-                mutated.add(tgt.attr)
+            for tgt, how in _written(node):
+                if how != "item":
+                    continue
+                if isinstance(tgt, ast.Name):
+                    mutated.add(tgt.id)
+                elif isinstance(tgt, ast.Attribute):
+                    mutated.add(tgt.attr)
 
         def kind_of(v, name):
-            base = None
-            if isinstance(v, (ast.Dict, ast.DictComp)):
-                base = "dict"
-            elif isinstance(v, (ast.List, ast.ListComp)):
-                base = "list"
-            elif isinstance(v, (ast.Set, ast.SetComp)):
-                base = "set"
-            elif isinstance(v, ast.Call):
-                callee = ast.unparse(v.func)
-                last = callee.split(".")[-1]
-                if last in local_classes or last == "local":
-                    return "tlocal"
-                if last == "ContextVar":
-                    return "contextvar"
-                return "call:" + "".join(ch for ch in callee if ch.isalnum() or ch in "._")
-            if base is None:
-                return None
-            return base if name.split(".")[-1] in mutated else "const"
+            k = _mutable_kind(v, local_classes)
+            if k in ("dict", "list", "set"):
+                return k if name.split(".")[-1] in mutated else "const"
+            return k
+
+        carriers = set()      # module-level names bound to a threading.local / ContextVar
 
         def scan(body, prefix):
             for st in body:
@@ -441,14 +631,22 @@ def inventory(pkg_dir):
                     if st.value is None:
                         continue
                     targets = st.targets if isinstance(st, ast.Assign) else [st.target]
-                    for t in targets:
+                    for t, v in _pairs(targets, st.value):
+                        name = None
                         if isinstance(t, ast.Name):
-                            k = kind_of(st.value, prefix + t.id)
+                            name = t.id
+                        elif isinstance(t, ast.Subscript) and ast.unparse(t.value) == "globals()" and \
+                                isinstance(t.slice, ast.Constant) and isinstance(t.slice.value, str):
+                            name = t.slice.value        # globals()["x"] = ... at module level is `x = ...`
+                        if name is not None:
+                            k = kind_of(v, prefix + name)
                             if k:
-                                out.append((mod, prefix + t.id, k))
+                                out.append((mod, prefix + name, k))
+                                if k in ("tlocal", "contextvar") and not prefix:
+                                    carriers.add(name)
                 elif isinstance(st, ast.ClassDef):
                     scan(st.body, prefix + st.name + ".")
-                elif isinstance(st, (ast.If, ast.Try, ast.With)):
+                elif isinstance(st, (ast.If, ast.Try, ast.With, ast.For, ast.While)):
                     scan(st.body, prefix)
                     for h in getattr(st, "handlers", []):
                         scan(h.body, prefix)
@@ -456,18 +654,79 @@ def inventory(pkg_dir):
                     scan(getattr(st, "finalbody", []), prefix)
 
         scan(tree.body, "")
+
         rebound = set()
-        for fnode in ast.walk(tree):
-            if not isinstance(fnode, (ast.FunctionDef, ast.AsyncFunctionDef)):
-                continue
+
+        def visit_fn(fnode, cls, outer):
+            """`cls` = innermost enclosing class name, `outer` = enclosing functions, outermost first, as
+            (node, locals, names of the functions defined directly in it)"""
+            loc = _locals_of(fnode)
+            own = list(_own_nodes(fnode))
             glob = set()
-            for node in ast.walk(fnode):
-                if isinstance(node, ast.Global):
-                    glob.update(node.names)
-            if glob:
-                for node in ast.walk(fnode):
-                    if isinstance(node, ast.Name) and isinstance(node.ctx, (ast.Store, ast.Del)) and node.id in glob:
-                        rebound.add(node.id)
+            for n in own:
+                if isinstance(n, ast.Global):
+                    glob.update(n.names)
+            for n in own:
+                if isinstance(n, ast.Name) and isinstance(n.ctx, (ast.Store, ast.Del)) and n.id in glob:
+                    rebound.add(n.id)
+                for tgt, how in _written(n):
+                    # globals()[..] = ..  inside a function
+                    if how == "item" and ast.unparse(tgt) == "globals()":
+                        key = getattr(getattr(n, "targets", [None])[0], "slice", None) if isinstance(n, ast.Assign) else None
+                        rebound.add(key.value if isinstance(key, ast.Constant) and isinstance(key.value, str) else "globals()[*]")
+                        continue
+                    base = tgt.value if how == "attr" else tgt
+                    attr = tgt.attr if how == "attr" else None
+                    # class attributes written at run time
+                    if how == "attr":
+                        b = ast.unparse(base)
+                        if isinstance(base, ast.Name) and base.id in classes and base.id not in loc:
+                            out.append((mod, "%s.%s" % (base.id, attr), "classattr"))
+                            continue
+                        if b in ("cls", "type(self)", "self.__class__") and cls:
+                            out.append((mod, "%s.%s" % (cls, attr), "classattr"))
+                            continue
+                        # an attribute of an object held in an instance attribute
+                        if isinstance(base, ast.Attribute) and isinstance(base.value, ast.Name) and base.value.id == "self" and cls:
+                            out.append((mod, "%s.%s.%s" % (cls, base.attr, attr), "held"))
+                            continue
+                    if not isinstance(base, ast.Name):
+                        continue
+                    nm = base.id
+                    # state in attributes of a function object defined in an enclosing function
+                    if how == "attr" and nm not in loc:
+                        hit = False
+                        for (onode, oloc, odefs) in reversed(outer):
+                            if nm in odefs:
+                                out.append((mod, "%s:%s.%s" % (outer[0][0].name, nm, attr), "fnattr"))
+                                hit = True
+                                break
+                            if nm in oloc:
+                                hit = True       # attribute of an enclosing function's local object: per call
+                                break
+                        if hit:
+                            continue
+                        if nm not in carriers and nm != "self":
+                            out.append((mod, "%s.*" % nm, "attrwrite"))
+                        continue
+                    # a container of an enclosing function mutated from here
+                    if how == "item" and nm not in loc:
+                        for (onode, oloc, odefs) in reversed(outer):
+                            if nm in oloc:
+                                k = None
+                                for st in _own_nodes(onode):
+                                    if isinstance(st, (ast.Assign, ast.AnnAssign)) and st.value is not None:
+                                        tg = st.targets if isinstance(st, ast.Assign) else [st.target]
+                                        for t, v in _pairs(tg, st.value):
+                                            if isinstance(t, ast.Name) and t.id == nm:
+                                                k = _mutable_kind(v, local_classes) or k
+                                out.append((mod, "%s:%s" % (outer[0][0].name, nm), "closure:%s" % (k or "object")))
+                                break
+            # `nonlocal x` rebinding = state of the enclosing call
+            for n in own:
+                if isinstance(n, ast.Nonlocal) and outer:
+                    for x in n.names:
+                        out.append((mod, "%s:%s" % (outer[0][0].name, x), "closure:nonlocal"))
             # mutable default arguments
             args = fnode.args
             pos = args.posonlyargs + args.args
@@ -476,14 +735,26 @@ def inventory(pkg_dir):
                 if isinstance(d, (ast.Dict, ast.List, ast.Set, ast.DictComp, ast.ListComp, ast.SetComp)):
                     mut = False
                     for node in ast.walk(fnode):
-                        tgt = None
-                        if isinstance(node, ast.Subscript) and isinstance(node.ctx, (ast.Store, ast.Del)):
-                            tgt = node.value
-                        elif isinstance(node, ast.Call) and isinstance(node.func, ast.Attribute) and node.func.attr in MUTATORS:
-                            tgt = node.func.value
-                        if isinstance(tgt, ast.Name) and tgt.id == a.arg:
-                            mut = True
+                        for tgt, how in _written(node):
+                            if how == "item" and isinstance(tgt, ast.Name) and tgt.id == a.arg:
+                                mut = True
                     out.append((mod, "%s:%s" % (fnode.name, a.arg), "default" if mut else "const"))
+            defs = {n.name for n in own if isinstance(n, (ast.FunctionDef, ast.AsyncFunctionDef))}
+            for n in own:
+                if isinstance(n, (ast.FunctionDef, ast.AsyncFunctionDef)):
+                    visit_fn(n, cls, outer + [(fnode, loc, defs)])
+                elif isinstance(n, ast.ClassDef):
+                    visit_body(n.body, n.name, outer + [(fnode, loc, defs)])
+
+        def visit_body(body, cls, outer):
+            for st in body:
+                for n in [st] + [x for x in _own_nodes(st)] if not isinstance(st, (ast.FunctionDef, ast.AsyncFunctionDef, ast.ClassDef)) else [st]:
+                    if isinstance(n, (ast.FunctionDef, ast.AsyncFunctionDef)):
+                        visit_fn(n, cls, outer)
+                    elif isinstance(n, ast.ClassDef):
+                        visit_body(n.body, n.name, outer)
+
+        visit_body(tree.body, None, [])
         for name in sorted(rebound):
             out.append((mod, name, "global"))
     return sorted(set(out))
@@ -569,6 +840,8 @@ class World(object):
     def __init__(self, env):
         self.DB = [env.make_db(f) for f in range(2)]
         self.DD = [env.make_dd(f) for f in range(3)]
+        self.V = env.make_sv()       # ONE AsyncScopedValue for all threads of the run (shared by design)
+        self.LRU = env.make_lru()    # ONE @alru_cache() function for all threads of the run (shared by design)
         self.owner = {}      # id(task) -> thread index
 
 
@@ -593,6 +866,8 @@ class Recorder(object):
         self.holding = False
         self.tie = False
         self.am = []
+        self.sv = []              # the `V.override(..)` context managers this thread is inside of
+        self.lru_ran = False
         self.hist = case.get("kind") == "hist"
         self.pause = False
         self.flushes = 0
@@ -869,6 +1144,28 @@ def env():
                     rec.emit(op, ["unit"])
                 elif name == "amGet":
                     rec.emit(op, ["bool", bool(e.a2a.is_asyncio_mode())])
+                elif name == "svGet":
+                    v = rec.world.V.get()
+                    rec.emit(op, ["nat", v if isinstance(v, int) else FOREIGN])
+                elif name == "svSet":
+                    op = ["svSet", hop[1]]
+                    rec.world.V.set(hop[1])
+                    rec.emit(op, ["unit"])
+                elif name == "svEnter":
+                    op = ["svEnter", hop[1]]
+                    c = rec.world.V.override(hop[1])
+                    c.__enter__()
+                    rec.sv.append(c)
+                    rec.emit(op, ["unit"])
+                elif name == "svExit":
+                    if rec.sv:
+                        rec.sv.pop().__exit__(None, None, None)
+                    rec.emit(op, ["unit"])
+                elif name == "lruCall":
+                    op = ["lruCall", hop[1]]
+                    rec.lru_ran = False
+                    v = rec.world.LRU(hop[1])
+                    rec.emit(op, ["cache", 0 if rec.lru_ran else 1, v if isinstance(v, int) else FOREIGN])
                 elif name == "taskEnter":
                     if len(hop) == 1:
                         op = ["newTask"]
@@ -910,6 +1207,19 @@ def env():
         return tools.deduplicate(keygetter=key0)(asynq.asynq()(dbody))
 
     e.make_db = make_db
+
+    def make_sv():
+        from asynq import scoped_value
+        return scoped_value.AsyncScopedValue(0)
+
+    def make_lru():
+        def lbody(k):
+            cur().lru_ran = True
+            return 10 * k + 1
+        return tools.alru_cache()(asynq.asynq()(lbody))
+
+    e.make_sv = make_sv
+    e.make_lru = make_lru
 
     def stats_tokens(stats):
         out = []
@@ -1121,6 +1431,11 @@ def _thread_main(e, rec, fn):
             pass
         if rec.turns is not None:
             rec.turns.leave(rec.t)
+        while rec.sv:
+            try:
+                rec.sv.pop().__exit__(None, None, None)
+            except Exception:
+                pass
         while rec.am:
             try:
                 rec.am.pop().__exit__(None, None, None)
@@ -1183,7 +1498,9 @@ def run_case(case):
     e = env()
     if kind == "inv":
         inv = inventory(os.path.dirname(os.path.abspath(e.asynq.__file__)))
-        lines = ["(case threads %d inv 0 0 0)" % cid] + ["(inv %s %s %s)" % x for x in inv] + ["(end)"]
+        probed = sorted({tuple(p["comp"]) for p in probes() if p.get("comp")})
+        lines = ["(case threads %d inv 0 0 0)" % cid] + ["(inv %s %s %s)" % tuple(_atom(y) for y in x) for x in inv] + \
+                ["(probe %s %s)" % x for x in probed] + ["(end)"]
         return {"lines": lines, "features": ["kind=inv", "inventory-entries=%d" % len(inv)], "nontrivial": "inventory"}
 
     case = json.loads(json.dumps(case))
